@@ -212,7 +212,9 @@ def _str_to_set(
 def _str_to_set_of_expr(value: Any) -> set[Expression]:
     value = _str_to_set(value)
     result = set()
-    for expression in value:
+    # Sorted: of two spellings that compare equal ('A OR B', 'B OR A'), the
+    # same one must win whatever the iteration order of the set happens to be.
+    for expression in sorted(value, key=str):
         try:
             result.add(_LICENSING.parse(expression))
         except (ExpressionError, ParseError) as error:
